@@ -1,11 +1,14 @@
 // ---- prelude for group.rs slices ---------------------------------------------------------------
-use std::borrow::Cow;
+// keyspace names are opaque identifiers in this unit (see env.rs: KsName / KsCow)
+use crate::env::KsCow as Cow;
 use std::ops::{Deref, DerefMut};
 
 use vcoll::sync::{Arc, AtomicCell, RwLock};
-// REAL std collections for this caller unit: keyspace names (the only map keys) and all counts are
-// concrete per harness, so CBMC executes the std code by constant propagation.
-use std::collections::BTreeMap;
+use vcoll::BTreeMap;
+// `Vec` (the collected metadata rows, sorted with sort_by_key) is the fixed-capacity vcoll::VVec with a stable insertion sort:
+// the std sort (driftsort/smallsort over raw pointers) on a Vec whose length CBMC does not constant-propagate dominated symbolic execution.
+#[allow(unused_imports)]
+use vcoll::vvec::VVec as Vec;
 
 use crate::env::*;
 
